@@ -85,6 +85,10 @@ class Stats(dict[str, Any]):
         dict.__init__(self, args)
         self.__changed: set[str] = set()
 
+    def __missing__(self, key: str) -> int:
+        # a counter which was never incremented (the message kinds are not all pre-registered)
+        return 0
+
     def __setitem__(self, key: str, val: Any) -> None:
         dict.__setitem__(self, key, val)
         self.__changed.add(key)
